@@ -388,6 +388,54 @@ Example C06_example_strings :
   canonical [1; 0; 0] /\ run2d_of_string [118; 53; 95; 49; 48; 48; 95; 48] = R2ValueError /\
   run2d_of_string [118; 53; 95; 55; 95; 48; 120] = R2ValueError /\ run2d_of_string [118; 54; 95; 54; 51; 95; 56; 51] = R2val 16383.
 Proof. repeat split; try (vm_compute; reflexivity); try (repeat constructor; unfold digit; cbn; try discriminate; try Lia.lia). Qed.
+(* ---- round 6: the private helpers reachable from the packers, and the spellings of a scalar argument ---- *)
+
+(* _int64_array as GENERATED from its source: a Python int or bool v becomes the int64 array [v] when it fits 64 bits
+   and ValueError otherwise -- whatever the spelling (a helper that lets NumPy infer the type, and so sees a Python
+   bool as a boolean array, does not satisfy this) *)
+Theorem C06_int64_array_exact : forall k v,
+  int64_array_model k v = if fits I64 v then PrArr I64 [v] else PrErr EValueError.
+Proof. exact int64_array_exact. Qed.
+Print Assumptions C06_int64_array_exact.
+
+(* ... and that ValueError never hides an in-range value: a rejected value is outside the generated range check of
+   whatever field it is given for, and outside the documented ranges *)
+Theorem C06_int64_array_rejects_only_out_of_range : forall k row i,
+  (i < 7)%nat -> int64_array_model k (nth i row 0) = PrErr EValueError ->
+  checks_ok objid_checks row = false /\ objid_doc_ranges row = false.
+Proof. exact int64_array_rejects_only_out_of_range. Qed.
+Print Assumptions C06_int64_array_rejects_only_out_of_range.
+
+(* the scalar promotions of sdss_specobjid as GENERATED (np.array([x]) with the type left to NumPy) apply to all six
+   arguments, never fail, and the array holds exactly the integer meaning of x (bool, int64, uint64 or object array) *)
+Theorem C06_specobjid_promotion_exact : forall k v,
+  promo_values (specobjid_promotion_model k v) = Some [v] /\ covers 6 6 specobjid_scalar_promoted = true.
+Proof. exact specobjid_promotion_exact. Qed.
+Print Assumptions C06_specobjid_promotion_exact.
+
+(* NumPy integer / boolean scalars and zero-dimensional arrays: the source has a normalising helper, it handles all
+   three classes and is applied to every argument of both packers before the isinstance(x, int) tests, so that every
+   spelling of a scalar reaches the promotion as a Python integer *)
+Theorem C06_scalar_forms_are_integers :
+  (forall i f, (i < 7)%nat -> form_is_int numpy_scalar_normaliser objid_scalar_normalised i f = true) /\
+  (forall i f, (i < 6)%nat -> form_is_int numpy_scalar_normaliser specobjid_scalar_normalised i f = true).
+Proof. exact scalar_forms_are_integers. Qed.
+Print Assumptions C06_scalar_forms_are_integers.
+
+Example C06_example_promotions :
+  run_promoter {| pr_dtype := Some I64; pr_handlers := [(EOverflowError, EValueError)] |} KBool 1 = PrArr I64 [1] /\
+  run_promoter {| pr_dtype := Some I64; pr_handlers := [(EOverflowError, EValueError)] |} KInt (2 ^ 63) = PrErr EValueError /\
+  run_promoter {| pr_dtype := Some I64; pr_handlers := [] |} KInt (2 ^ 63) = PrErr EOverflowError /\
+  run_promoter {| pr_dtype := None; pr_handlers := [] |} KBool 1 = PrBoolArr [1] /\
+  run_promoter {| pr_dtype := None; pr_handlers := [] |} KInt (2 ^ 63) = PrArr U64 [2 ^ 63] /\
+  run_promoter {| pr_dtype := None; pr_handlers := [] |} KInt (2 ^ 64) = PrObjArr [2 ^ 64] /\
+  form_is_int (Some [NpIntegerScalar; NpBoolScalar; ZeroDimArray]) [4%nat] 4 (FNp NpBoolScalar) = true /\
+  form_is_int (Some [NpIntegerScalar; NpBoolScalar; ZeroDimArray]) [4%nat] 3 (FNp NpBoolScalar) = false /\
+  form_is_int None [] 4 (FNp NpBoolScalar) = false /\
+  run_xcase (XObjidForms [FPy; FPy; FPy; FPy; FPy; FPy; FPy] (Sc 752) (Sc 5) (Sc 618) (Sc 459) (Some (Sc 40)) (Some (Sc 1)) (Some (Sc 1))
+               ValueError) >= 2.
+Proof. repeat split; vm_compute; try reflexivity; discriminate. Qed.
+
 Example C06_example_defaults :
   objid_call (Sc 3704) (Sc 3) (Sc 91) (Sc 146) None None None = Ok [1237661382772195474] /\
   objid_call (Ar [3704; 3704]) (Ar [3; 3]) (Ar [91; 91]) (Ar [146; 147]) None None None = Ok [1237661382772195474; 1237661382772195475].
